@@ -32,6 +32,13 @@ pub enum PNode {
     Tab(Vec<(String, PNode)>),
 }
 
+#[derive(serde::Deserialize, Debug, PartialEq, Eq, PartialOrd, Ord)]
+struct NK(Spanned<String>);
+#[derive(serde::Deserialize, Debug, PartialEq, Eq, PartialOrd, Ord)]
+struct NK2(NK);
+#[derive(serde::Deserialize, Debug, PartialEq, Eq, PartialOrd, Ord)]
+struct NKS(String);
+
 struct SV;
 impl<'de> Visitor<'de> for SV {
     type Value = SNode;
@@ -475,6 +482,21 @@ pub fn c14_eval(bytes: &[u8], uni: &'static str, acc: &mut Acc) {
                     let via_slice: SNode = toml_edit::de::from_slice(text.as_bytes()).map_err(|e| format!("toml_edit::de::from_slice fails where toml::from_str succeeds: {}", e.message()))?;
                     if !same_with_spans(&via_slice, s) {
                         return Err(format!("toml_edit::de::from_slice delivers different spans than from_str: {:?} vs {:?}", via_slice, s));
+                    }
+                    // keys through wrapper layers: a newtype around Spanned<String>, a newtype around that, an Option-free
+                    // transparent wrapper - "wrapping a target type in Spanned never changes whether decoding succeeds"
+                    let nk: std::collections::BTreeMap<NK, serde::de::IgnoredAny> = toml::from_str(text).map_err(|e| format!("a map keyed by a newtype around Spanned<String> fails to decode where Spanned<String> keys succeed: {}", e.message()))?;
+                    let nk2: std::collections::BTreeMap<NK2, serde::de::IgnoredAny> = toml::from_str(text).map_err(|e| format!("a map keyed by a newtype around a newtype around Spanned<String> fails to decode: {}", e.message()))?;
+                    let nks: std::collections::BTreeMap<NKS, serde::de::IgnoredAny> = toml::from_str(text).map_err(|e| format!("a map keyed by a newtype around String fails to decode: {}", e.message()))?;
+                    if nk.len() != st.len() || nk2.len() != st.len() || nks.len() != st.len() {
+                        return Err(format!("newtype-keyed maps have {} / {} / {} entries, the Spanned-keyed table has {}", nk.len(), nk2.len(), nks.len(), st.len()));
+                    }
+                    for (k, _) in st {
+                        let a = nk.keys().find(|x| x.0.get_ref() == k.get_ref()).map(|x| x.0.span());
+                        let b = nk2.keys().find(|x| x.0 .0.get_ref() == k.get_ref()).map(|x| x.0 .0.span());
+                        if a != Some(k.span()) || b != Some(k.span()) {
+                            return Err(format!("key {:?}: Spanned<String> reports {:?}, inside one newtype {:?}, inside two {:?}", k.get_ref(), k.span(), a, b));
+                        }
                     }
                     let via_doc: SNode = toml_edit::de::from_document(toml_edit::ImDocument::parse(text.to_string()).map_err(|e| e.message().to_string())?).map_err(|e| format!("from_document(ImDocument) fails: {}", e.message()))?;
                     if !same_with_spans(&via_doc, s) {
